@@ -187,6 +187,13 @@ pub fn configs(ctx: &Ctx) -> Vec<DistSpec> {
         }
         v.push(DistSpec::f(Family::Gamma, s, &[f64::INFINITY, 2.0]));
     }
+    // Zipf::new accepts any real n >= 1: with a fractional n the proposal floor(n) + 1 is an
+    // ordinary event (not only a rounding overshoot), and the result must still be an integer
+    for s in [Scalar::F32, Scalar::F64] {
+        for (n, sx) in [(10.5, 1.0), (2.5, 0.7), (1000.75, 2.0), (1.5, 3.0), (7.25, 0.0), (1.0625, 1.0)] {
+            v.push(DistSpec::f(Family::Zipf, s, &[n, sx]));
+        }
+    }
     // Geometric(0) = u64::MAX is documented; p so small that 1 - p == 1 behaves the same
     for p in [0.0, 1e-17, 1.1e-16, 1.2e-16, 3e-16] {
         v.push(DistSpec::i(Family::Geometric, &[], &[p]));
